@@ -23,9 +23,9 @@ import (
 const hostileBase = 1 << 28
 
 type c11env struct {
-	res     *report.Result
-	d       *delivery
-	invoked sync.Map // hostile tag -> *atomic.Int32
+	res             *report.Result
+	d               *delivery
+	invoked         sync.Map // hostile tag -> *atomic.Int32
 	hostileHandlers atomic.Int64
 }
 
